@@ -62,10 +62,12 @@ Definition set_pmid s x := mkScr (disp s) (nond s) (md s) (crow s) (ccol s) (pco
      v_ital_white  the mid-row italics code makes the text white (the standard: the colour is kept), unless it
                    directly follows another mid-row code
      v_pac_clears  in paint-on mode a PAC erases the row it addresses
-     v_der_ignored Delete to End of Row does nothing *)
-Record dev := mkDev { v_pad_keeps : bool ; v_base15 : bool ; v_ital_white : bool ; v_pac_clears : bool ; v_der_ignored : bool }.
-Definition dev0 := mkDev false false false false false.
-Definition dev_all := mkDev true true true true true.
+     v_der_ignored Delete to End of Row does nothing
+     v_cr_erases   a carriage return outside roll-up mode erases the displayed memory (the standard: no effect) *)
+Record dev := mkDev { v_pad_keeps : bool ; v_base15 : bool ; v_ital_white : bool ; v_pac_clears : bool ; v_der_ignored : bool ;
+                      v_cr_erases : bool }.
+Definition dev0 := mkDev false false false false false false.
+Definition dev_all := mkDev true true true true true true.
 
 (* the memory characters are written to: the non-displayed one in pop-on mode, the displayed one otherwise *)
 Definition cur_mem (s : scr) : mem := match md s with PopOn => nond s | _ => disp s end.
@@ -112,7 +114,7 @@ Definition control (v : dev) (s : scr) (code : Z) : scr :=
   else if code =? kCR then
     match md s with
     | RollUp n => set_pos (set_disp s (roll (disp s) (crow s) n)) (crow s) 0
-    | _ => s
+    | _ => if v_cr_erases v then set_disp s mem0 else s
     end
   else if code =? kBS then back s
   else if code =? kDER then
@@ -335,15 +337,12 @@ Fixpoint accepts (eq : vrows -> vrows -> bool) (cs : list win) (cur : vrows) (f 
       else accepts eq cs' (last_state cur (w_states c)) f seen
   end.
 Fixpoint frames_from (k : nat) (f : Z) : list Z := match k with O => [] | S k' => f :: frames_from k' (f + 1) end.
-(* the frames examined: from 3 frames before the first line to 40 frames after the last word *)
+(* the frames examined: around every line, from 3 frames before its time code to 6 frames after its last word
+   (the document cannot change elsewhere: every begin / end is a stamp T+1 .. T+len+1 of some line, Properties/C08.v
+   C08_stamps), and 40 more frames after the last line *)
 Definition frame_range (ls : list sline) : list Z :=
-  match ls with
-  | [] => []
-  | l0 :: _ =>
-      let lo := fold_left (fun a l => Z.min a (frame_of l)) ls (frame_of l0) - 3 in
-      let hi := fold_left (fun a l => Z.max a (frame_of l + nlen (sl_words l))) ls (frame_of l0) + 40 in
-      frames_from (Z.to_nat (hi - lo + 1)) lo
-  end.
+  flat_map (fun l => frames_from (Z.to_nat (nlen (sl_words l) + 10)) (frame_of l - 3)) ls ++
+  match rev ls with [] => [] | l :: _ => frames_from 34 (frame_of l + nlen (sl_words l) + 7) end.
 (* first frame at which the document is not accepted (None: accepted at every frame) *)
 Fixpoint first_bad (eq : vrows -> vrows -> bool) (cs : list win) (seen : list (Z * vrows)) : option Z :=
   match seen with
@@ -370,8 +369,8 @@ Definition S_line (ls : list sline) (df : bool) (d : doc) : option Z := oracle d
    run of the decoder with all deviations admitted (the run the reader follows). *)
 Definition tDUP := 1.        (* a second copy of a doubled pair precedes a display-changing word of its line *)
 Definition tPADDUP := 2.     (* a pair repeated after nulls / other-channel words is dropped *)
-Definition tLATE := 4.       (* roll-up / paint-on characters that do not directly follow the CR (roll-up) / PAC (paint-on)
-                                that opened their paragraph *)
+Definition tLATE := 4.       (* roll-up / paint-on: characters, mid-row code or backspace changing the display without directly
+                                following the CR (roll-up) / PAC (paint-on) that opened their paragraph *)
 Definition tBASE := 8.       (* roll-up PAC for a row other than 15 *)
 Definition tITAL := 16.      (* mid-row italics while the pen colour is not white *)
 Definition tCLEAR := 32.     (* paint-on PAC for a row that shows something *)
@@ -382,6 +381,7 @@ Definition tNEGCUR := 512.   (* pop-on / paint-on PAC for a row that already hol
 Definition tCLAMP := 1024.   (* pop-on / paint-on PAC more than one column to the right of what the addressed row already holds *)
 Definition tROW0 := 2048.    (* roll-up characters after EDM with no PAC / RUx in between *)
 Definition tOVER := 4096.    (* a character is stored over a cell that already shows one *)
+Definition tCR := 8192.      (* carriage return outside roll-up mode while something is displayed *)
 Definition row_blank (m : mem) (r : Z) : bool := forallb is_blank (row_get m r).
 Definition bor (a b : Z) : Z := Z.lor a b.
 Fixpoint first_col (l : list cell) (c : Z) : Z := match l with [] => -1 | x :: l' => if is_blank x then first_col l' (c + 1) else c end.
@@ -398,7 +398,6 @@ Definition word_triggers (s : scr) (w : Z) (g : tstate) : Z * tstate :=
   if d_cls d =? cPad then (0, mkTst (gap + 1) fresh noact)
   else if d_cls d =? cChars then
     if chan s =? 1 then
-      let late := if direct && (0 <? gap) then tLATE else 0 in
       let pen_default := (pcol s =? white) && negb (pita s) && negb (pund s) in
       let sp := match md s with
                 | PaintOn => if fresh && negb pen_default && negb (d_t1 d =? 32) && (d_t2 d =? 32) then tSPACE else 0
@@ -407,7 +406,7 @@ Definition word_triggers (s : scr) (w : Z) (g : tstate) : Z * tstate :=
       let r0 := match md s with RollUp _ => if noact then tROW0 else 0 | _ => 0 end in
       let cell_at c := nth (Z.to_nat c) (row_get (cur_mem s) (crow s)) blank in
       let ov := if negb (is_blank (cell_at (ccol s))) || (negb (d_t2 d =? -1) && negb (is_blank (cell_at (ccol s + 1)))) then tOVER else 0 in
-      (bor (bor (bor late sp) r0) ov, mkTst (gap + 1) false (if direct then false else noact))
+      (bor (bor sp r0) ov, mkTst (gap + 1) false (if direct then false else noact))
     else (0, mkTst (gap + 1) fresh noact)
   else if negb (d_chan d =? 1) then (0, mkTst (gap + 1) fresh noact)
   else if is_second_copy v s w then
@@ -429,14 +428,16 @@ Definition word_triggers (s : scr) (w : Z) (g : tstate) : Z * tstate :=
     else if c =? cMidRow then
       ((if d_italic d && negb (pcol s =? white) && negb (pmid s) then tITAL else 0), mkTst (gap + 1) true noact)
     else if c =? cControl then
-      if code =? kCR then (0, mkTst (match md s with RollUp _ => 0 | _ => gap + 1 end) fresh noact)
+      if code =? kCR then
+        ((match md s with RollUp _ => 0 | _ => if forallb (fun r => forallb is_blank r) (disp s) then 0 else tCR end),
+         mkTst (match md s with RollUp _ => 0 | _ => gap + 1 end) fresh (match md s with RollUp _ => noact | _ => true end))
       else if code =? kDER then
         ((if forallb is_blank (skipn (Z.to_nat (ccol s)) (row_get (cur_mem s) (crow s))) then 0 else tDER), mkTst (gap + 1) fresh noact)
       else if code =? kEDM then (0, mkTst (gap + 1) fresh true)
       else if (code =? kEOC) || ((kRU2 <=? code) && (code <=? kRU4)) then (0, mkTst (gap + 1) fresh false)
       else (0, mkTst (gap + 1) fresh noact)
     else if (c =? cSpecial) || (c =? cExtended) then
-      (bor (bor (if direct && (0 <? gap) then tLATE else 0) (match md s with RollUp _ => if noact then tROW0 else 0 | _ => 0 end))
+      (bor (match md s with RollUp _ => if noact then tROW0 else 0 | _ => 0 end)
            (if negb (is_blank (nth (Z.to_nat (ccol s)) (row_get (cur_mem s) (crow s)) blank)) && (c =? cSpecial) then tOVER else 0),
        mkTst (gap + 1) false (if direct then false else noact))
     else (0, mkTst (gap + 1) fresh noact).
@@ -452,6 +453,12 @@ Fixpoint line_triggers (s : scr) (ws : list Z) (g : tstate) (dups : Z) (prev : v
       let now := rows_of_mem (disp s') in
       let changed := negb (vrows_eqb prev now) in
       let fl := if changed && (0 <? dups) then bor fl tDUP else fl in
+      (* roll-up / paint-on: a change of the display by characters, a mid-row code or a backspace that do not directly
+         follow the code that opened the paragraph *)
+      let direct := match md s with PopOn => false | _ => true end in
+      let textual := (d_cls d =? cChars) || (d_cls d =? cSpecial) || (d_cls d =? cExtended) || (d_cls d =? cMidRow) ||
+                     ((d_cls d =? cControl) && (d_code d =? kBS)) in
+      let fl := if changed && direct && textual && (0 <? g_gap g) then bor fl tLATE else fl in
       line_triggers s' ws' g' (if second then dups + 1 else dups) now (bor acc fl)
   end.
 Definition triggers (ls : list sline) : Z :=
